@@ -32,7 +32,9 @@ var c18published = []c18rule{
 //@ func oracleC18Polygon
 //@   props C18
 //@   oracle
-func oracleC18Polygon(sel []int, nNodes int, closed bool, rot int) {
+//@   covers osm.init
+//@   covers Polygon
+func oracleC18Polygon(sel []int, nNodes int, closed bool, rot int, ruleSel int, valSel int) {
 	abs := func(x int) int {
 		if x < 0 {
 			return -x
@@ -46,6 +48,13 @@ func oracleC18Polygon(sel []int, nNodes int, closed bool, rot int) {
 	}
 	var tags Tags
 	used := map[string]bool{}
+	{
+		// one tag chosen directly: a rule key with one of its listed values (or another value)
+		r := c18published[abs(ruleSel)%len(c18published)]
+		vals := append([]string{"yes", "x"}, r.values...)
+		tags = append(tags, Tag{Key: r.key, Value: vals[abs(valSel)%len(vals)]})
+		used[r.key] = true
+	}
 	for i, s := range sel {
 		k := keys[abs(s*7+i*3)%len(keys)]
 		if used[k] {
